@@ -29,7 +29,13 @@ Plain(l) == [l |-> l, code |-> 200]
 \* closes its connection, so handshakes happen throughout the run); the other requests of the run get a plain 200.
 TlsShare    == {"tlsalert", "tlsclose", "tlsreset"}
 TlsLetters  == TlsShare \cup {"tlstimeout"}
+\* AVAILABILITY histories: the target is up, goes away during the run (its connections are reset / it black-holes new
+\* ones / nothing listens on its port) and comes back, while instances are still being started.  A request that meets
+\* the target while it is away fails like a transport failure; the others are answered with a plain 200 / OK.
+AvailLetters == {"avreset", "avhole", "avrefused"}
+ShareLetters == TlsShare \cup AvailLetters
 NetLetters  == {"badstatus", "badheader", "hugeheader", "closebefore", "closeduring", "refused", "timeout"} \cup TlsLetters
+               \cup AvailLetters
 BodyLetters == {"trunc", "badchunk"}
 OddLetters  == {"early", "empty", "big", "notjson", "jsonarr", "nothtml", "shorthdr", "nohdr"}
 \* "hv": a well-formed 200 whose X-Tok header value has exactly `code` bytes (0 = empty / absent)
@@ -52,6 +58,7 @@ HdrTok(x)     == CASE x.l \in {"shorthdr", "hv"} -> "short" [] x.l = "nohdr" -> 
 \* gRPC: the status the server returns / what happens to the call
 GrpcCodes   == 0..16
 GrpcLetters == {[l |-> "code", code |-> c] : c \in GrpcCodes} \cup {Plain("gbig"), Plain("gtoobig"), Plain("gslow"), Plain("gkill")}
+               \cup {Plain(l) : l \in AvailLetters}
 GrpcOK(x)   == (x.l = "code" /\ x.code = 0) \/ x.l = "gbig"
 
 \* ---------------------------------------------------------------- postprocessors of step "a" of a scenario gun
@@ -118,6 +125,9 @@ Outcome(gun, x, p) ==
       [] gun = "grpc"                                -> <<GrpcOutcome(x)>>
       [] gun = "grpc/scenario"                       -> GrpcScenOutcome(x)
 
+GrpcGuns == {"grpc", "grpc/scenario"}
+\* what a request gets when nothing is wrong
+OkLetter(gun) == IF gun \in GrpcGuns THEN [l |-> "code", code |-> 0] ELSE StatusLetter(200)
 LettersOf(gun) == IF gun \in {"grpc", "grpc/scenario"} THEN GrpcLetters ELSE HttpLetters
 PostsOf(gun)   == IF gun \in {"http/scenario", "http2/scenario"} THEN Posts ELSE {"none"}
 
